@@ -1572,6 +1572,8 @@ fn __commit_offsets(
                     );
                     attempt += 1;
                     __retry_sleep(config);
+                } else {
+                    return Err(Error::Kafka(e));
                 }
             }
             None => {
